@@ -84,6 +84,7 @@ def file_desc(draw, nested=False):
         # an explicit byte order mark in front of a codec that does not
         # write one itself
         f['explicit_bom'] = draw(hs.integers(0, 3)) == 0
+        f['cut_tail'] = draw(hs.sampled_from(range(12))) == 0
 
         if draw(hs.integers(0, 7)) == 0:
             # a long first line (before the first hunk)
@@ -137,14 +138,27 @@ def build_tree(case):
     diffx = ns.DiffX()
     expect = []
 
+    def stats_of(d):
+        # a pre-existing statistics dictionary may be any mapping a loader
+        # produced (OrderedDict, defaultdict)
+        d = copy.deepcopy(d)
+        flavour = len(repr(d)) % 3
+
+        if flavour < 2:
+            import collections
+            d = (collections.OrderedDict(d) if flavour == 0 else
+                 collections.defaultdict(int, d))
+
+        return d
+
     if 'main_stats' in case:
-        diffx.meta = {'stats': copy.deepcopy(case['main_stats']), 'top': 1}
+        diffx.meta = {'stats': stats_of(case['main_stats']), 'top': 1}
 
     for c in case['changes']:
         change = diffx.add_change()
 
         if 'stats' in c:
-            change.meta = {'stats': copy.deepcopy(c['stats']), 'id': 'abc'}
+            change.meta = {'stats': stats_of(c['stats']), 'id': 'abc'}
 
         if c.get('encoding'):
             change.encoding = c['encoding']
@@ -155,7 +169,7 @@ def build_tree(case):
             meta = copy.deepcopy(f['other_meta'])
 
             if 'stats' in f:
-                meta['stats'] = copy.deepcopy(f['stats'])
+                meta['stats'] = stats_of(f['stats'])
 
             fs = change.add_file(meta=meta)
 
@@ -168,6 +182,22 @@ def build_tree(case):
         expect.append(fexp)
 
     return diffx, expect
+
+
+def undecodable_tail(f):
+    if not f.get('cut_tail') or f.get('misdeclare') or \
+            f['kind'] != 'text' or f.get('redeclare_only'):
+        return b''
+
+    enc = f['encoding']
+
+    if enc in ('utf-8', 'ascii'):
+        return b'\xc3'
+
+    if enc and enc.startswith(('utf-16', 'utf-32')):
+        return b'\x00'
+
+    return b''
 
 
 def apply_diff(fs, f):
@@ -191,6 +221,13 @@ def apply_diff(fs, f):
                 f = dict(f, kind='text')
                 data, ins, dels = diff_bytes(f)
 
+        tail = undecodable_tail(f)
+
+        if tail and data:
+            # bytes that stop in the middle of a character at the very end:
+            # the diff cannot be decoded, so it is not analysed
+            data += tail
+
         fs.diff = data
 
         if f['encoding'] is not None:
@@ -209,6 +246,9 @@ def apply_diff(fs, f):
             # a wrongly declared single-byte encoding over UTF-16/32 bytes:
             # no line can start with "@@", so there are no hunks at all
             analysed = (0, 0) if f.get('misdeclare') else (ins, dels)
+
+            if tail:
+                analysed = None
     elif f['kind'] == 'empty':
         fs.diff = b''
     elif fs.diff_section.content is not None:
